@@ -839,6 +839,13 @@ class AsyncFIXConnection:
                     return
                 await self._state_set(ConnectionState.LOGON_INITIAL_RECV)
                 self._connection_role = ConnectionRole.ACCEPTOR
+            elif self._connection_state == ConnectionState.LOGON_INITIAL_SENT:
+                # Applicable only for initiator
+                if msg.msg_type != FMsg.LOGON:
+                    # Logon() was not confirmed by acceptor, no session established,
+                    #   nothing can be processed
+                    await self.disconnect(ConnectionState.DISCONNECTED_BROKEN_CONN)
+                    return
 
             if msg.msg_type == FMsg.LOGON:
                 await self._process_logon(msg)
